@@ -248,11 +248,29 @@ def replay(cases, workdir, env_extra=None, jobs=12, timeout_ms=10000, name="repl
 # --------------------------------------------------------------------------- findings
 
 def load_findings():
-    p = os.path.join(VERIF, "known_findings.json")
-    if not os.path.exists(p):
-        return []
-    with open(p) as f:
-        return json.load(f)["findings"]
+    import glob
+    out = []
+    for p in [os.path.join(VERIF, "known_findings.json")] + sorted(glob.glob(os.path.join(VERIF, "known_findings.d", "*.json"))):
+        if os.path.exists(p):
+            with open(p) as f:
+                out += json.load(f)["findings"]
+    return out
+
+
+def replay_file(prop, path, env_extra=None, binary="replay"):
+    """Re-run one recorded failing case (./check <id> --replay <path>)."""
+    with open(path) as f:
+        obj = json.load(f)
+    case = obj["case"]
+    if "steps" not in case:
+        raise ToolError(f"{path} is not a replayable engine case")
+    work = os.path.join(WORK, prop, "replay1")
+    v = replay([case], work, env_extra=env_extra or obj.get("env"), jobs=1, name="replay1", binary=binary)[0]
+    print(json.dumps(v, indent=1))
+    if not v["pass"]:
+        print(f"VIOLATION property={prop} replay={path}")
+        return 1
+    return 0
 
 
 def match_finding(prop, case, verdict, findings):
